@@ -8,11 +8,11 @@ import json
 import vlib
 
 # ---- tier constants -------------------------------------------------------------------------
-K_MODEL = {"quick": dict(MaxN=3, Coords="{0, 1, 2}", Dim=2), "thorough": dict(MaxN=4, Coords="{0, 1, 2}", Dim=2)}
-K_GEN = {"quick": dict(MaxN2=4, MaxN1=4, MaxN3=3, Stride=3), "thorough": dict(MaxN2=5, MaxN1=5, MaxN3=4, Stride=1)}
+K_MODEL = {"quick": dict(MaxN=3, Coords="{0, 1, 2}", Dim=2, NMeth=5), "thorough": dict(MaxN=4, Coords="{0, 1, 2}", Dim=2, NMeth=3)}
+K_GEN = {"quick": dict(MaxN2=4, MaxN1=4, MaxN3=3, Stride=3), "thorough": dict(MaxN2=5, MaxN1=5, MaxN3=4, Stride=2)}
 K_INVS = ["InvSym", "InvGaussDiag", "InvGaussRange", "InvGaussMono", "InvGaussPSD", "InvLinearPSD", "InvPolyLinear",
           "InvPatFull", "InvPatMin", "InvPatUnique", "InvPatOneSided", "InvPatKPlus", "InvViews"]
-K_TRACE_CONST = dict(MaxN=0, Coords="{}", Dim=0)
+K_TRACE_CONST = dict(MaxN=0, Coords="{}", Dim=0, NMeth=0)
 
 H_MODEL = {"quick": dict(MaxN=3, Vals="{0, 1, 2, 20}"), "thorough": dict(MaxN=4, Vals="{0, 1, 2}")}
 H_MODEL2 = dict(MaxN=3, Vals="{0, 1, 2, 3, 5, 20}")      # thorough: second run, more levels and floored entries
@@ -45,8 +45,8 @@ def random_kernel_cases(ctx, count):
         pts = [[r.randint(0, hi) for _ in range(dim)] for _ in range(n)]
         k = r.choice([0, 1, 2, n - 1, r.randint(1, n - 1), r.randint(1, n - 1)])
         meth = dict(r.choice(METHODS))
-        if meth["name"] == "poly" and meth["d"] == 3 and hi * hi * dim + meth["c"] > 40:
-            meth["d"] = 2            # keep (dot+c)^d * 10^4 inside the logged range
+        while meth["name"] == "poly" and meth["d"] > 1 and (hi * hi * dim + meth["c"]) ** meth["d"] > 1000:
+            meth["d"] -= 1           # keep every sum of (dot+c)^d * 10^4 inside TLC's 32-bit integers
         rhs = [[r.randint(-2, 2), r.randint(-2, 2)] for _ in range(n)]
         pd = r.choice([1, 1, 2])
         out.append({"kind": "kernel", "inp": {"pts": pts, "meth": meth, "k": k, "rhs": rhs, "pd": pd}})
@@ -69,7 +69,7 @@ def random_hier_cases(ctx, count):
     none = {"name": "none", "en": 1, "ed": 1, "c": 0, "d": 0}
     for _ in range(count):
         if r.random() < 0.6:
-            n = r.randint(5, 9)
+            n = r.randint(5, 8)
             link = r.choice(EXACT_LINKS * 3 + OTHER_LINKS)
             if link == "weighted":
                 n = min(n, 7)
@@ -129,7 +129,7 @@ def run(ctx):
     ctx.exhaustive = not ctx.quick
     if not ctx.quick:
         kcases += random_kernel_cases(ctx, 600)
-        hcases += random_hier_cases(ctx, 1200)
+        hcases += random_hier_cases(ctx, 500)
     cases = kcases + hcases
     vlib.number(cases)
     ctx.cases = len(cases)
@@ -141,8 +141,8 @@ def run(ctx):
     htr = [t for t in traces if t["kind"] == "hier"]
     vlib.sample(ctx, [t for t in ktr if t["inp"]["k"] == 1 and len(t["inp"]["pts"]) == 3][:1]
                 + [t for t in htr if t["inp"]["src"] == "expmat" and len(t["inp"]["dk"]) == 3 and t["inp"]["link"] == "complete"][40:41])
-    vlib.validate_with_findings(ctx, "Trace_KernelMat", ktr, constants=K_TRACE_CONST, chunk=1500, tag="Trace_KernelMat")
-    vlib.validate_with_findings(ctx, "Trace_HierClust", htr, constants=H_TRACE_CONST, chunk=1500, tag="Trace_HierClust")
+    vlib.validate_with_findings(ctx, "Trace_KernelMat", ktr, constants=K_TRACE_CONST, chunk=3000, tag="Trace_KernelMat")
+    vlib.validate_with_findings(ctx, "Trace_HierClust", htr, constants=H_TRACE_CONST, chunk=3000, tag="Trace_HierClust")
     ctx.extra = {"kernel_cases": len(ktr), "hier_cases": len(htr),
                  "hier_events": sum(len(t["ev"]) for t in htr), "kernel_events": sum(len(t["ev"]) for t in ktr)}
     ctx.rule = ("kernel cases = every multiset of 2..N lattice points ({0,1,2}^2, {-2..2}^1, {0,1}^3; sorted or reversed) x every k in 0..n-1 "
